@@ -7,6 +7,7 @@ THEOREMS = [P + t for t in ["indent_pattern_pinned", "leaf_single_line", "splitW
 
 WORDS = ["hello", "world", "Q&A", "a<b", "1>0", "&lt;", "&amp;", "&amp;lt;", "&#38;", "x", "it's", '"quoted"', "é", "中文", "\U0001F600", "100%", "a;b", "fox",
          "<x>", "-->", "--", "]]>", "&", "<", ">", "two", "I", "{1}", "&copy;", "&nbsp;", "#", "=",
+         "&apos;", "&quot;", "&gt;", "rock&apos;n", "&APOS;", "&#39;",
          "École", "ÆON æon", "Ωω", "Ça", "Über", "Ñandú", "†‡", "Œuvre", "Šš", "ÞÐ"]
 
 
